@@ -398,7 +398,7 @@ func fnSort(ctx *cmdContext, args map[string]any) (output respValue, err error) 
 }
 
 func fnFlushAll(ctx *cmdContext, args map[string]any) (output respValue, err error) {
-	ctx.dsc.flushAll(ctx.cs.dss, ctx.multi)
+	ctx.dsc.flushAll(ctx.cs, ctx.multi)
 	output.data = rstrOK
 	return
 }
